@@ -1032,13 +1032,15 @@ def r14i(ctx):
     from .c02 import _memo_sites
     from .c15 import READ_ONLY
     repo = ctx.repo
-    ctx.rule("R14i", "lookups of XmlPart classes keep no memo of their answers on the part (only the lazily parsed tree and root)", floor=25)
-    base = repo.cls("XmlPart")
-    governed = {"__tree", "__root", "_XmlPart__tree", "_XmlPart__root"}
+    ctx.rule("R14i", "lookups and getters of every class keep no memo of their answers on the object (only the named, governed lazily loaded parts)", floor=400)
+    # governed stores, one named attribute each, with the rule that governs it:
+    #   XmlPart.__tree/__root   lazily parsed tree and its root wrapper (R11k)
+    #   Container.__parts/__parts_ts   bytes of a package member and its timestamp, keyed by member path (R03 family)
+    #   Document.__xmlparts     the XmlPart of a member path (R03 family); Document.__body  the body wrapper of content.xml (R20i: body setter keeps the node)
+    #   Style._family           the family read from the style's own attribute on first use (R13 family: the family setter rewrites it)
+    governed = {"__tree", "__root", "_XmlPart__tree", "_XmlPart__root", "__parts", "__parts_ts", "__xmlparts", "__body", "_family"}
     by_node = {}
     for c in repo.all_classes():
-        if base not in c.mro:
-            continue
         for name, fs in c.methods.items():
             for f in fs:
                 if f.cls is c and f.kind not in ("setter", "deleter", "nested"):
